@@ -12,7 +12,7 @@ import (
 )
 
 var (
-	c01MaxAge  = []string{"", "0", "1", "10", "abc", "-5", "2147483648", "9223372036854775807", "9223372036854775808", "1180591620717411303424",
+	c01MaxAge = []string{"", "0", "1", "10", "abc", "-5", "2147483648", "9223372036854775807", "9223372036854775808", "1180591620717411303424",
 		"0, max-age=3600", "10, MAX-AGE=100000"} // (repeated: the first occurrence counts, or the response is stale)
 	c01Expires = []string{"", "-1", "+0", "+10", "raw:0", "raw:garbage"}
 	c01LastMod = []string{"", "-100", "-864000", "+0", "+100", "raw:garbage", "-105", "-5"} // (10 % of 105 s and of 5 s are no whole seconds)
